@@ -129,6 +129,10 @@ func (h *Harness) doWorkload(w Workload, only int, onlyMode string, onlySecond s
 		r.TieFail("workload-run:"+w.Name, "the workload could not be run as scripted on the real code: "+wr.Err, map[string]interface{}{"case": rep(0, ""), "results": wr.Results})
 		return false
 	}
+	if len(wr.Stuck) > 0 {
+		r.TieFail("workload-stuck:"+w.Name, fmt.Sprintf("workload %s made no progress for 8 s while a paced snapshot (writing-time target 1 h) was waiting - an operation that aborts the snapshot in the model waits for it on the real code? stuck at %s; the harness released the snapshot with HurryUp and went on", w.Name, strings.Join(wr.Stuck, ", ")),
+			map[string]interface{}{"case": rep(0, ""), "results": wr.Results, "ops": w.Ops})
+	}
 	if wr.Final == nil {
 		r.PropFail("workload-panic:"+w.Name, "the uninterrupted run itself failed: "+strings.Join(wr.Results, "; "), map[string]interface{}{"case": rep(0, "")})
 		return false
